@@ -26,8 +26,12 @@ class Vocab:
             names[t["name"].casefold()] += 1
         self.plain = []
         self.noext = []
+        # Duration / Delay carry group rules only where the schema marks them topLevelTagGroup (8.2.0 on); before that they
+        # are ordinary value tags and belong to the vocabulary like any other
+        toplevel0 = {t["name"] for t in f.real_tags() if "topLevelTagGroup" in t["attrs"]}
+        special = SPECIAL_NAMES - ({"Duration", "Delay"} - toplevel0)
         for t in f.real_tags():
-            if t["name"] in SPECIAL_NAMES or any(a in t["inh"] for a in SPECIAL_ATTRS):
+            if t["name"] in special or any(a in t["inh"] for a in SPECIAL_ATTRS):
                 continue
             if names[t["name"].casefold()] != 1 or not re.match(r"^[A-Za-z0-9-]+$", t["name"]):
                 continue
@@ -42,7 +46,7 @@ class Vocab:
             if not t["placeholder"]:
                 continue
             parent = f.by_long[t["parent"]]
-            if parent["name"] in SPECIAL_NAMES or any(a in parent["inh"] for a in SPECIAL_ATTRS if a != "requireChild"):
+            if parent["name"] in special or any(a in parent["inh"] for a in SPECIAL_ATTRS if a != "requireChild"):
                 continue
             if names[parent["name"].casefold()] != 1:
                 continue
@@ -81,7 +85,7 @@ class Vocab:
                     self.num_tags.append(parent)
             elif not vcs:
                 pass
-        self.require_child = [t for t in f.real_tags() if "requireChild" in t["attrs"] and t["name"] not in SPECIAL_NAMES
+        self.require_child = [t for t in f.real_tags() if "requireChild" in t["attrs"] and t["name"] not in special
                               and names[t["name"].casefold()] == 1]
         self.has = {n: any(t["name"] == n for t in f.real_tags()) for n in SPECIAL_NAMES}
         self.toplevel = {t["name"] for t in f.real_tags() if "topLevelTagGroup" in t["attrs"]}
